@@ -189,6 +189,10 @@ func nonNilPreserving(f *ssa.Function) int {
 				if g, isG := x.X.(*ssa.Global); isG && x.Op == token.MUL && g.Pkg != nil && g.Pkg.Pkg.Path() == "io" {
 					return // io.ErrUnexpectedEOF and friends are never nil
 				}
+				// the parameter spilled to a cell because its address is handed to callees that only read it
+				if al, isAl := x.X.(*ssa.Alloc); isAl && x.Op == token.MUL && cellHoldsOnlyParam(al, f.Params[pi]) {
+					return
+				}
 				ok = false
 			default:
 				ok = false
@@ -387,6 +391,10 @@ func checkC19(c *Check) {
 		ruleIsValid(c, p, "R19.4")
 		ruleValidFrameHeader(c, p, "R19.5")
 		ruleContentSize(c, p, "R19.6")
+		ruleHeaderParsers(c, p, "R19.7")
+		c.RuleDoc["R19.7"] = "who parses a header: Reader.init and ValidFrameHeader (which hands its whole input to the parser)"
+		c.RuleDoc["R19.8"] = "Reset re-arms the frame on every path, so the next stream's header is parsed afresh (= R17.4)"
+		c.only(func(k string) bool { return k == "Reader.Reset#rearms" }, func() { ruleResetRearms(c, p, "R19.8") })
 	}
 }
 
@@ -445,7 +453,7 @@ func ruleMagicDispatch(c *Check, p *Program, rule string) {
 	allInstrs(fn, func(in ssa.Instruction) {
 		switch x := in.(type) {
 		case ssa.CallInstruction:
-			if calleeIs(x, "io", "CopyN") {
+			if calleeIs(x, "io", "CopyN") || callReaches(x, func(y ssa.CallInstruction) bool { return calleeIs(y, "io", "CopyN") }) {
 				skipBlk = append(skipBlk, in.Block())
 			}
 			if f := staticCallee(x); f != nil && f.Name() == "initR" && recvTypeName(f) == "FrameDescriptor" {
@@ -704,6 +712,35 @@ func ruleHeaderGate(c *Check, p *Program, rule string) {
 		return false
 	}
 	edges := findEqEdges(fn, isHash, isStored)
+	if len(edges) == 0 {
+		// the validation may be the tail of the parser moved into a function of its own: every possibly-nil result of
+		// the parser (outside the legacy branch) is then that function's result, and the gate is decided there
+		var tail *ssa.Function
+		onlyTail := true
+		allInstrs(fn, func(in ssa.Instruction) {
+			r, isR := in.(*ssa.Return)
+			if !isR || len(r.Results) != 1 || !mayBeNilErr(r.Results[0], in.Block()) {
+				return
+			}
+			if call, isC := r.Results[0].(*ssa.Call); isC {
+				if t := staticCallee(call); t != nil && inModule(t) && t.Pkg == fn.Pkg && len(t.Blocks) > 0 {
+					if tail == nil || tail == t {
+						tail = t
+						return
+					}
+				}
+			}
+			if !hasAtom(atomsOfBlock(in.Block()), "legacy", "", true) {
+				onlyTail = false
+			}
+		})
+		if tail != nil && onlyTail {
+			if inner := findEqEdges(tail, isHash, isStored); len(inner) == 1 {
+				c.Funcs[fname(tail)] = true
+				fn, edges = tail, inner
+			}
+		}
+	}
 	if len(edges) != 1 {
 		c.Fail(rule, "initR#checkbyte-compare", pos, "the header check byte is compared with the hash of the descriptor", fmt.Sprintf("found %d comparisons between descriptorChecksum(...) and the stored byte (need exactly 1)", len(edges)))
 		return
@@ -937,13 +974,72 @@ func checkSetter(c *Check, p *Program, rule, key string, s *ssa.Function, lo, n 
 	nStores := 0
 	ok := true
 	var why []string
+	// the polarity of the boolean argument on the edge pred -> blk (1 true, 0 false, -1 not decided by it)
+	edgePol := func(pred, blk *ssa.BasicBlock) int {
+		if ifi, isIf := pred.Instrs[len(pred.Instrs)-1].(*ssa.If); isIf && ifi.Cond == ssa.Value(arg) {
+			if pred.Succs[0] == blk && pred.Succs[1] != blk {
+				return 1
+			}
+			if pred.Succs[1] == blk && pred.Succs[0] != blk {
+				return 0
+			}
+		}
+		for _, l := range guardsOf(pred) {
+			if l.Cond == ssa.Value(arg) {
+				if l.Val {
+					return 1
+				}
+				return 0
+			}
+		}
+		return -1
+	}
+	var cases [][2]interface{} // (store, polarity) pairs to verify
 	allInstrs(s, func(in ssa.Instruction) {
 		st, isSt := in.(*ssa.Store)
 		if !isSt || st.Addr != recv {
 			return
 		}
+		if isBool {
+			known := false
+			for _, l := range guardsOf(st.Block()) {
+				if l.Cond == ssa.Value(arg) {
+					known = true
+					cases = append(cases, [2]interface{}{st, l.Val})
+				}
+			}
+			if !known {
+				// one store after the branches have joined: verify it once per polarity, phis resolved by the edge taken
+				cases = append(cases, [2]interface{}{st, true}, [2]interface{}{st, false})
+			}
+		} else {
+			cases = append(cases, [2]interface{}{st, true})
+		}
+	})
+	polSeen := map[bool]bool{}
+	for _, cs := range cases {
+		st, pol := cs[0].(*ssa.Store), cs[1].(bool)
+		polSeen[pol] = true
+		func() {
 		nStores++
 		env := &bitEnv{vals: map[ssa.Value]bitvec{}, ok: true}
+		if isBool {
+			env.pick = func(ph *ssa.Phi) ssa.Value {
+				var sel ssa.Value
+				n := 0
+				for i, pred := range ph.Block().Preds {
+					ep := edgePol(pred, ph.Block())
+					if ep == -1 || (ep == 1) == pol {
+						sel = ph.Edges[i]
+						n++
+					}
+				}
+				if n == 1 {
+					return sel
+				}
+				return nil
+			}
+		}
 		// loads of *recv are the input word
 		allInstrs(s, func(j ssa.Instruction) {
 			if u, isU := j.(*ssa.UnOp); isU && u.Op == token.MUL && u.X == recv {
@@ -962,17 +1058,7 @@ func checkSetter(c *Check, p *Program, rule, key string, s *ssa.Function, lo, n 
 		// polarity for bool setters: which edge of `if v` are we on
 		var wantField func(i int) bitSrc
 		if isBool {
-			val, known := false, false
-			for _, l := range guardsOf(st.Block()) {
-				if l.Cond == arg {
-					val, known = l.Val, true
-				}
-			}
-			if !known {
-				ok = false
-				why = append(why, "store not guarded by the boolean argument")
-				return
-			}
+			val := pol
 			wantField = func(i int) bitSrc {
 				if val {
 					return bitSrc{'1', 0}
@@ -992,12 +1078,13 @@ func checkSetter(c *Check, p *Program, rule, key string, s *ssa.Function, lo, n 
 				why = append(why, fmt.Sprintf("bit %d of the stored word is %c%d, expected %c%d", i, v[i].kind, v[i].idx, want.kind, want.idx))
 			}
 		}
-	})
+		}()
+	}
 	if nStores == 0 {
 		ok = false
 		why = append(why, "no store through the receiver")
 	}
-	if isBool && nStores < 2 {
+	if isBool && !(polSeen[true] && polSeen[false]) {
 		ok = false
 		why = append(why, "boolean setter must store on both polarities")
 	}
@@ -1199,6 +1286,20 @@ func ruleContentSize(c *Check, p *Program, rule string) {
 					ok = false
 					whyS = append(whyS, "content size returned without the Size flag being set")
 				}
+				// only once a header has been parsed for the current stream (the descriptor survives Reset)
+				en := stateEnum(p)
+				sv := stateLoadOf(fn)
+				if sv == nil {
+					ok = false
+					whyS = append(whyS, "the content size is returned without looking at the lifecycle state: after Reset the size of the previous frame is reported")
+				} else {
+					sets := valueSetsAt(fn, sv, sv.(ssa.Instruction).Block(), 8)
+					got := sets[b]
+					if len(got.intersect(vset{{en["newState"], en["newState"]}, {en["errorState"], en["errorState"]}, {en["noState"], en["noState"]}}.norm())) != 0 {
+						ok = false
+						whyS = append(whyS, "the content size is returned in states "+got.String()+": before a header has been parsed for this stream the descriptor holds the previous frame's size")
+					}
+				}
 				return
 			}
 			ok = false
@@ -1211,4 +1312,75 @@ func ruleContentSize(c *Check, p *Program, rule string) {
 		whyS = append(whyS, "Size never returns the parsed content size")
 	}
 	c.Cond(ok, rule, "lz4.Reader.Size", p.Pos(fn.Pos()), "Size returns the parsed content size unchanged (or 0)", "returns are 0 or int(FrameDescriptor.ContentSize) under the Size flag", strings.Join(whyS, "; "))
+}
+
+// cellHoldsOnlyParam: the local cell is stored exactly once, with the parameter, and its address is
+// otherwise only loaded from or passed to module functions that do not write through that pointer.
+func cellHoldsOnlyParam(al *ssa.Alloc, prm *ssa.Parameter) bool {
+	if al.Referrers() == nil {
+		return false
+	}
+	stores := 0
+	for _, r := range *al.Referrers() {
+		switch x := r.(type) {
+		case *ssa.Store:
+			if x.Addr != ssa.Value(al) || x.Val != ssa.Value(prm) {
+				return false
+			}
+			stores++
+		case *ssa.UnOp:
+			if x.Op != token.MUL {
+				return false
+			}
+		case *ssa.DebugRef:
+		case ssa.CallInstruction:
+			f := staticCallee(x)
+			if f == nil || !inModule(f) {
+				return false
+			}
+			for i, a := range x.Common().Args {
+				if a == ssa.Value(al) && !readOnlyPtrParam(f, i, 2) {
+					return false
+				}
+			}
+		default:
+			return false
+		}
+	}
+	return stores == 1
+}
+
+// readOnlyPtrParam: the function never stores through its i-th (pointer) parameter, directly or in a callee.
+func readOnlyPtrParam(f *ssa.Function, i, depth int) bool {
+	if f == nil || len(f.Blocks) == 0 || i >= len(f.Params) || depth <= 0 {
+		return false
+	}
+	q := f.Params[i]
+	if q.Referrers() == nil {
+		return true
+	}
+	for _, r := range *q.Referrers() {
+		switch x := r.(type) {
+		case *ssa.UnOp:
+			if x.Op != token.MUL {
+				return false
+			}
+		case *ssa.BinOp, *ssa.DebugRef:
+		case *ssa.Store:
+			return false
+		case ssa.CallInstruction:
+			g := staticCallee(x)
+			if g == nil || !inModule(g) {
+				return false
+			}
+			for j, a := range x.Common().Args {
+				if a == ssa.Value(q) && !readOnlyPtrParam(g, j, depth-1) {
+					return false
+				}
+			}
+		default:
+			return false
+		}
+	}
+	return true
 }
